@@ -50,6 +50,10 @@ Definition d_c15 (op : string) (a : val) : option val :=
           | _ => Some (VL [VL (map v_coords ds); v_outcome (fun _ => VL []) res])
           end
       | None => Some bad end
+  | "slice_order", VL names =>
+      match all_some (map getS names) with
+      | Some names => Some (VL (map VS (slice_order names)))
+      | None => Some bad end
   | "invert_permutation", p =>
       match getZs p with Some p => Some (v_outcome vZs (invert_permutation p)) | None => Some bad end
   | "permute", VL [s; p] =>
